@@ -356,7 +356,31 @@ def corpus(spec_id):
         c.add_increase_effect(y, 1, g)
         p.add_action(a); p.add_action(b); p.add_action(c); p.add_goal(em.And(g, em.Equals(y, 4)))
         out.append(HandGen(p, "uinr-undefined-chain"))
+    if spec_id in ("usertype-fluents-remover", "pipeline:usertype+quantifiers+disjunctive"):
+        # the Boolean encoding must switch the old value off: loc := x, then a test of the old value
+        env, tm, em, T, p, objs = base("utfr-old-value-cleared")
+        loc = Fluent("loc", T, OrderedDict(), env)
+        p.add_fluent(loc, default_initial_value=objs[0])
+        g = bfl(env, tm, p, "g", False)
+        mv = InstantaneousAction("mv", OrderedDict([("x", T)]), env)
+        mv.add_effect(loc, mv.parameter("x"))
+        b = InstantaneousAction("b", _env=env)
+        b.add_precondition(em.Equals(loc, objs[0]))
+        b.add_effect(g, True)
+        p.add_action(mv); p.add_action(b)
+        p.add_goal(em.And(g, em.Equals(loc, objs[1])))
+        out.append(HandGen(p, "utfr-old-value-cleared"))
     if spec_id in ("state-invariants-remover", "bounded-types-remover"):
+        # the invariant / the bound must also hold in the LAST state of a plan
+        env, tm, em, T, p, objs = base("inv-final-state")
+        x = ifl(env, tm, p, "x", 1, 0, 2)
+        f, g = bfl(env, tm, p, "f", True), bfl(env, tm, p, "g", False)
+        a = InstantaneousAction("inc", _env=env); a.add_increase_effect(x, 1)
+        b = InstantaneousAction("brk", _env=env); b.add_effect(f, False); b.add_effect(g, True)
+        p.add_action(a); p.add_action(b)
+        p.add_state_invariant(f)
+        p.add_goal(em.Or(g, em.LE(2, x)))
+        out.append(HandGen(p, "inv-final-state"))
         env, tm, em, T, p, objs = base("inv-and-bounds")
         x = ifl(env, tm, p, "x", 1, 0, 2)
         f = bfl(env, tm, p, "f", True)
@@ -626,6 +650,8 @@ def shape_tags(problem):
                     tags.add("conditional-increase-with-disjunctive-condition")
             if e.fluent.type.is_bool_type() and not e.value.is_bool_constant():
                 tags.add("fluent-valued-boolean-assignment")
+            if (e.fluent.type.is_user_type() and e.value.is_fluent_exp() and e.value.type != e.fluent.type):
+                tags.add("object-fluent-assigned-from-subtype-fluent")
     return sorted(tags)
 
 
